@@ -31,6 +31,7 @@ func genSleep(t *rapid.T) sleepCase {
 	sc.Cfg.RetryCount = uint(rapid.IntRange(1, 3).Draw(t, "retries"))
 	sc.Cfg.Predef = map[string]map[uint16]string{"*": {1: "p/one"}}
 	sc.Auto = gwsim.Auto{Connack: gwgen.U8(0), BrokerAcks: true, ClientRegack: true, ClientAcks: true, BrokerPubrel: true, Suback: "grant"}
+	maybeEager(t, sc)
 	keepalive := uint16(rapid.SampledFrom([]int{5, 30, 600}).Draw(t, "keepalive"))
 	add := func(s ...gwsim.Step) { sc.Steps = append(sc.Steps, s...) }
 	add(connectSteps(sc.Cfg, "cl", keepalive)...)
